@@ -95,7 +95,7 @@ Fixpoint as_bytes (n : node) (x : val) {struct n} : val :=
 
 Section Dumps.
 Variable root : node.
-Definition dumpb (v : val) : string := GenC08.dumpb (as_bytes root v).
+Definition dumpb (v : val) : string := GenC08.dumpb root (as_bytes root v).
 
 Definition ans_val (o : out (option val)) : string :=
   match o with
